@@ -298,7 +298,9 @@ PostFail(S, e, props) ==
 NewVal(S, e, id) ==
     \* payload of an element after this call
     IF e.op = "write_via" /\ e.ret.k = "some" /\ id = e.ret.ids[1] THEN e.vals[1]
-    ELSE IF id \in CloneNew(e) THEN Val(S, CloneSrc(e, id))
+    ELSE IF id \in CloneNew(e)
+         THEN LET src == CloneSrc(e, id) IN
+              IF src \in Range(e.ids) /\ e.op \in ByValArg \cup ByRefArg THEN e.vals[PosOf(e.ids, src)] ELSE Val(S, src)
     ELSE IF id \in Range(GenSeq(e)) THEN (IF Len(e.vals) = 0 THEN -1 ELSE e.vals[((PosOf(GenSeq(e), id) - 1) % Len(e.vals)) + 1])
     ELSE IF id \in Range(e.ids) /\ e.op \in ByValArg \cup ByRefArg THEN e.vals[PosOf(e.ids, id)]
     ELSE Val(S, id)
@@ -334,7 +336,7 @@ OkFail(S, e) ==
         ELSE {})
   \cup \* conservation: what the call owned is afterwards in exactly one place
        (IF op \in MutOps \cup CtorOps \cup {"drop_buf", "caller_drop", "to_vec", "clone", "into_iter"} \cup ReadOps
-        THEN    Chk((Owned(S, e) \ Kept(S, e)) \ {id \in DOMAIN S.limbo : S.limbo[id].why # "user"} \subseteq DropIds(e),
+        THEN    Chk((Owned(S, e) \ Kept(S, e)) \ {id \in DOMAIN S.limbo : S.limbo[id].why # "user" \/ op # "drop_buf"} \subseteq DropIds(e),
                     FaultTag(S, e), "leak")
            \cup Chk(DropIds(e) \cap Kept(S, e) = {}, FaultTag(S, e), "dropped_but_still_present")
         ELSE {})
